@@ -24,14 +24,22 @@ type RCase struct {
 	Dials []Case `json:"dials"` // per dial: identity, addresses, applications (Script/Extras unused: the peer answers the first CER with success)
 }
 
+// configuredBefore: the previous dial of the running case had configured addresses.
+var configuredBefore bool
+
 func applyConfig(cli *sm.Client, c Case) {
 	s := cli.Handler.Settings()
 	s.OriginHost, s.OriginRealm = datatype.DiameterIdentity(c.Host), datatype.DiameterIdentity(c.Realm)
 	s.OriginStateID, s.FirmwareRevision = datatype.Unsigned32(c.StateID), datatype.Unsigned32(c.Firmware)
-	s.HostIPAddresses = nil
-	for _, ip := range c.ConfiguredIPs {
-		s.HostIPAddresses = append(s.HostIPAddresses, datatype.Address(ip))
+	// the address list is only touched when the application has something to say about it: a
+	// client that never configures addresses leaves the field alone from dial to dial
+	if len(c.ConfiguredIPs) > 0 || configuredBefore {
+		s.HostIPAddresses = nil
+		for _, ip := range c.ConfiguredIPs {
+			s.HostIPAddresses = append(s.HostIPAddresses, datatype.Address(ip))
+		}
 	}
+	configuredBefore = len(c.ConfiguredIPs) > 0
 	cli.AuthApplicationID, cli.AcctApplicationID, cli.VendorSpecificApplicationID = nil, nil, nil
 	for _, id := range c.Auth {
 		cli.AuthApplicationID = append(cli.AuthApplicationID, diam.NewAVP(avp.AuthApplicationID, avp.Mbit, 0, datatype.Unsigned32(id)))
@@ -46,6 +54,7 @@ func applyConfig(cli *sm.Client, c Case) {
 }
 
 func runRedial(rc RCase) *ev.Failure {
+	configuredBefore = false
 	machine := sm.New(&sm.Settings{VendorID: 13, ProductName: "verif"})
 	stop := make(chan struct{})
 	defer close(stop)
@@ -111,7 +120,7 @@ func genDialConfig(t *rapid.T) Case {
 
 var redial = ev.Register(&ev.Prop[RCase]{
 	ID: "C12", Name: "redial",
-	Rule: "one sm.Client dials 2..3 times; before each dial the identity in the live Settings, the configured host addresses and the advertised application lists are set afresh (they differ between dials); the peer accepts every handshake; each dial's CER must carry the configuration in force at that dial; non-trivial = consecutive dials differ in identity or applications",
+	Rule: "one sm.Client dials 2..3 times; before each dial the identity in the live Settings, the configured host addresses (left alone while nothing is configured) and the advertised application lists are set afresh (they differ between dials, and so does the local endpoint of the transport); the peer accepts every handshake; each dial's CER must carry the configuration in force at that dial; non-trivial = consecutive dials differ in identity or applications",
 	Gen: func(t *rapid.T) RCase {
 		var rc RCase
 		n := rapid.IntRange(2, 3).Draw(t, "dials")
@@ -130,6 +139,12 @@ var redial = ev.Register(&ev.Prop[RCase]{
 			}
 		}
 		var cl []string
+		for i := 1; i < len(rc.Dials); i++ {
+			if len(rc.Dials[i-1].ConfiguredIPs) == 0 && len(rc.Dials[i].ConfiguredIPs) == 0 && rc.Dials[i-1].LocalAddr != rc.Dials[i].LocalAddr {
+				cl = append(cl, "consecutive-unconfigured-dials-from-different-local-endpoints")
+				break
+			}
+		}
 		if len(rc.Dials[0].ConfiguredIPs) > 0 {
 			cl = append(cl, "first-dial-configured-ips")
 		}
